@@ -528,8 +528,13 @@ class BehavioralRTLIRToVVisitorL1( bir.BehavioralRTLIRNodeVisitor ):
         #   nbits = node.Type.get_dtype().get_length()
         #   return f"{nbits}'({value}[{idx}])"
 
+        # Pending indices of enclosing interface arrays belong right after
+        # the mangled name, i.e. before ALL indices of a multi-dimensional
+        # member array (ifc__e[i][2][0], not ifc__e[2][i][0]).
+        p = value.find('[')
+        name, inner = (value, '') if p < 0 else (value[:p], value[p:])
         return s.process_unpacked_q( node,
-            f'{value}[{idx}]', f'{value}{{}}[{idx}]' )
+            f'{value}[{idx}]', f'{name}{{}}{inner}[{idx}]' )
       else:
         # is this branch ever taken?
         assert False
